@@ -36,7 +36,8 @@ THEOREMS = ["C27_byte_char_bijection", "C27_merge_preserves_concat", "C27_bpe_me
 def main(ctx):
     ctx.rule = ("one TABLE case (the implementation's char_to_byte map) + the Unicode general-category sweep (>=2 representatives "
                 "of every category Lu..Cn, ASCII and non-ASCII, alone / doubled / between letters, spaces, digits, for each of the 10 "
-                "splitting pre-tokenizer configurations; a pre-tokenizer that drops text there is a property failure) + one case "
+                "splitting pre-tokenizer configurations; a pre-tokenizer that drops text there is a property failure) + Split with 8 "
+                "patterns that can match the empty string x invert x {Isolate, Remove} x 22 texts + one case "
                 "per generated tokenizer: merges trained on "
                 "the case's own texts (so they fire), vocabulary default or scrambled ids, added tokens (fresh id / same as a "
                 "vocabulary entry / clashing), 4-11 Unicode texts (controls, combining marks, astral plane, special-token text, "
